@@ -451,6 +451,39 @@ Definition mon_C04 (sc : scenario) (c0 : cluster) (out : outcome) : bool :=
          negb bad || negb (existsb (fun x => is_apply_req (fst x) d) (reqs (out_trace out))))
        (g_deps (pl_graph pl) d)) apply_ids.
 
+(* observation-level strengthening of C04 (not part of mon_C04, whose model
+   theorem is C04_monitor): the Successful wait event that licenses the apply of
+   a dependent must itself rest on an observation of the dependency that is
+   Current, carries a body, at a generation not older than the applied one (2
+   in the harness) and with the applied UID *)
+Definition obs_current_ok (fin : cluster) (e : id) (o : sobs) : bool :=
+  kst_eqb (s_st o) SCurrent && s_body o && Z.leb 2 (s_gen o) &&
+  negb (negb (N.eqb (s_uid o) 0) &&
+        match find_obj (objs fin) e with
+        | Some c => negb (N.eqb (c_uid c) 0) && negb (N.eqb (c_uid c) (s_uid o))
+        | None => false
+        end).
+Definition mon_C04_obs (sc : scenario) (c0 : cluster) (out : outcome) : bool :=
+  let pl := plan_of sc c0 in
+  let t := index_from 0 (out_trace out) in
+  is_dry (o_dry (sc_opts sc)) ||
+  forallb (fun pit =>
+    match snd pit with
+    | IReq (RCreate d _) _ _ _ | IReq (RPatch d _ _) _ _ _ =>
+        forallb (fun e =>
+          match rev (filter (fun q => Nat.ltb (fst q) (fst pit) &&
+                                      match snd q with IEv (EWait _ e' _) => Nat.eqb e e' | _ => false end) t) with
+          | (qpos, IEv (EWait _ _ WOk)) :: _ =>
+              match rev (filter (fun q => Nat.ltb (fst q) qpos &&
+                                          match snd q with IDeliv o => Nat.eqb (s_id o) e | _ => false end) t) with
+              | (_, IDeliv o) :: _ => obs_current_ok (out_final out) e o
+              | _ => false
+              end
+          | _ => true      (* the wait-event conjunct of mon_C04 reports this case *)
+          end) (g_deps (pl_graph pl) d)
+    | _ => true
+    end) t.
+
 Definition mon_C05 (sc : scenario) (c0 : cluster) (out : outcome) : bool :=
   let pl := plan_of sc c0 in
   let t := index_from 0 (out_trace out) in
@@ -576,7 +609,7 @@ Definition check_C02 := check_with mon_C02.
 Definition check_C03 (h : history) : nat :=
   let '(c0, runs) := h in
   let '(a, m) := check_runs mon_C03 c0 runs in code a (m && c03_fixpoint c0 runs).
-Definition check_C04 := check_with mon_C04.
+Definition check_C04 := check_with (fun sc c0 out => mon_C04 sc c0 out && mon_C04_obs sc c0 out).
 Definition check_C05 := check_with mon_C05.
 Definition check_C10 := check_with mon_C10.
 Definition check_C11 := check_with mon_C11.
@@ -587,4 +620,4 @@ Definition check_C13 := check_with mon_C13.
    the harness during development) *)
 Definition mon_all (sc : scenario) (c0 : cluster) (out : outcome) : list bool :=
   [mon_C01 sc c0 out; mon_C02 sc c0 out; mon_C03 sc c0 out; mon_C04 sc c0 out; mon_C05 sc c0 out;
-   mon_C10 sc c0 out; mon_C11 sc c0 out; mon_C12 sc c0 out; mon_C13 sc c0 out].
+   mon_C10 sc c0 out; mon_C11 sc c0 out; mon_C12 sc c0 out; mon_C13 sc c0 out; mon_C04_obs sc c0 out].
